@@ -28,3 +28,23 @@ Theorem C01_batching_irrelevant :
   forall s0 batches,
   latest St G (run St Ev G build upd relevant s0 batches) = latest St G (run St Ev G build upd relevant s0 [concat batches]).
 Proof. exact batching_irrelevant. Qed.
+
+(* ---- the frame condition above (an event judged irrelevant does not change what is built) is a hypothesis of the three theorems. For the
+   specification's build - k8s/Spec.decide, the answer to every request, against which the generated configuration is compared per
+   state - it is proved here for the two relevance criteria the change processor applies to the most frequent events (C01/Frame.v):
+   Services (and with them EndpointSlices) matter only when a backendRef of a valid Route of the winning Gateway names them and the
+   reference is permitted; Secrets only when a listener's certificateRef names them. Creation, update and deletion are all instances of
+   "the list is replaced by one that says the same about the objects that are named". That the sets the code computes
+   (graph.ReferencedServices / ReferencedSecrets) are these is what the C06 check compares on every run. *)
+From NGF Require Import k8s.State k8s.Spec C01.Frame.
+
+Theorem C01_a_change_to_unreferenced_services_changes_no_answer :
+  forall cs l' q,
+  (forall g r ru b, winning_gateway cs = Some g -> In r (c_routes cs) -> live_route g r = true ->
+                    In ru (rt_rules r) -> In b (r_backends ru) -> tracked_agree cs l' r b) ->
+  decide (with_services cs l') q = decide cs q.
+Proof. exact unreferenced_services_change_no_answer. Qed.
+
+Theorem C01_a_change_to_unreferenced_secrets_changes_no_answer :
+  forall cs l' q, (forall g, listeners_agree cs l' g) -> decide (with_secrets cs l') q = decide cs q.
+Proof. exact unreferenced_secrets_change_no_answer. Qed.
